@@ -270,4 +270,55 @@ func f10() {
 	}
 	b.WriteString("end Coercion.Generated.F10\n")
 	write("F10.lean", b.String())
+	f11()
+}
+
+// F11: the same skeletons for every function of the CosmosDB vault (workflow/storage/cosmosdb, minus its
+// fake client and test helpers), grouped by what they implement. The repository's fake Cosmos client
+// cannot judge updates, queries or paging (DESIGN 0.2), so for this backend the shape of the code is the
+// only thing a check can tie to: any change of shape is reported.
+func f11() {
+	groups := []struct {
+		lean  string
+		files []string
+	}{
+		{"roundtrip", []string{"creator_plan.go", "reader_plan.go", "reader_blocks.go", "reader_checks.go", "reader_sequences.go", "reader_actions.go",
+			"updater.go", "updater_plan.go", "updater_blocks.go", "updater_checks.go", "updater_sequence.go", "updater_actions.go"}},
+		{"createDelete", []string{"creator.go", "creator_plan.go", "deleter.go"}},
+		{"query", []string{"reader.go", "recovery.go"}},
+	}
+	var b strings.Builder
+	b.WriteString("namespace Coercion.Generated.F11\n\n")
+	for _, g := range groups {
+		var toks []string
+		for _, fl := range g.files {
+			_, f := parseFile("workflow/storage/cosmosdb/" + fl)
+			if f == nil {
+				toks = append(toks, "<file not found: "+fl+">")
+				continue
+			}
+			for _, d := range f.Decls {
+				fn, ok := d.(*ast.FuncDecl)
+				if !ok || fn.Body == nil {
+					continue
+				}
+				k := &skel{}
+				k.block(fn.Body)
+				toks = append(toks, "func "+fl+":"+fn.Name.Name+" {")
+				toks = append(toks, k.toks...)
+				toks = append(toks, "}")
+			}
+		}
+		fmt.Fprintf(&b, "def %s : List String := [\n", g.lean)
+		for i, tok := range toks {
+			fmt.Fprintf(&b, "  %s", leanStr(tok))
+			if i < len(toks)-1 {
+				b.WriteString(",")
+			}
+			b.WriteString("\n")
+		}
+		b.WriteString("]\n\n")
+	}
+	b.WriteString("end Coercion.Generated.F11\n")
+	write("F11.lean", b.String())
 }
